@@ -85,3 +85,23 @@ Proof.
   pose proof (run_rch_extra fuel ops (IState []) (init_state max_height true) eq_refl (rch_inv_init _ _) (rch_extra_init _ _)) as H.
   eapply Forall_impl; [|exact H]. intros e (H1 & H2 & _). done.
 Qed.
+
+(* ---- the heap holds necessary nodes only (debug builds, up to the first failing operation) *)
+From Incr.Proofs Require Import OkPres HeapNeeded FrameHeapNec.
+
+Lemma HNx_init max_height : HNx [] (init_state max_height true).
+Proof. split; [done|]. intros n x Hx. done. Qed.
+
+Lemma history_heap_needed fuel max_height ops :
+  while_ok (run_history fuel max_height true ops) (HNx []).
+Proof. unfold run_history. apply run_heap_needed. apply HNx_init. Qed.
+
+(* what the stabilise loop takes out of the heap is a necessary node *)
+Lemma popped_node_is_necessary s n s' :
+  HNx [] s -> rch_inv s -> rch_extra s ->
+  rch_remove_min s = (Ok (Some n), s') ->
+  exists x, nodes s !! n = Some x /\ is_necessary x = true.
+Proof.
+  intros [Hd A] Hi Hx E. destruct (rch_remove_min_is_min s (Some n) s' Hd Hi Hx E) as (x & Hn & Hpos & _).
+  exists x. split; [done|]. destruct (A n x Hn Hpos) as [|Hin]; [done|]. by apply elem_of_nil in Hin.
+Qed.
